@@ -73,16 +73,16 @@ theorem oneshot_restores : ∀ c ∈ classes, isConcrete classes c = true → us
 example : Legal [.assert 1, .soft 0 10 1, .push 2, .assert 2, .soft 0 11 2, .soft 1 12 1, .objective 5, .pop 1,
     .soft 1 13 1, .push 1, .assert 4, .pop 2, .assert 5] := by decide
 example : Script.lastFormula [.assert 1, .soft 0 10 1, .push 2, .assert 2, .soft 0 11 2, .soft 1 12 1, .objective 5,
-    .pop 1, .soft 1 13 1, .push 1, .assert 4, .pop 2, .assert 5] = .ok ([1, 5], [.maxsmt [(10, 1)]]) := by decide
+    .pop 1, .soft 1 13 1, .push 1, .assert 4, .pop 2, .assert 5] = .ok ([1, 5], [.maxsmt [(10, 1)]]) := rfl
 example : Script.lastFormula [.push 1, .soft 1 12 1, .objective 5, .soft 1 13 2, .assert 3] =
-    .ok ([3], [.maxsmt [(12, 1), (13, 2)], .obj 5]) := by decide
+    .ok ([3], [.maxsmt [(12, 1), (13, 2)], .obj 5]) := rfl
 -- illegal scripts exist and are excluded (the model then reports Python's IndexError)
 example : ¬ Legal [.push 1, .pop 2] := by decide
-example : Script.lastFormula [.push 1, .pop 2] = .error .indexError := by decide
+example : Script.lastFormula [.push 1, .pop 2] = .error .indexError := rfl
 -- strict formula: accepted and refused scripts
-example : Script.strictFormula [.assert 1, .check, .assert 2] = .ok [1, 2] := by decide
-example : Script.strictFormula [.assert 1, .reset, .assert 2, .check] = .error .valueError := by decide
-example : Script.strictFormula [.assert 1, .check, .check] = .error .valueError := by decide
+example : Script.strictFormula [.assert 1, .check, .assert 2] = .ok [1, 2] := rfl
+example : Script.strictFormula [.assert 1, .reset, .assert 2, .check] = .error .valueError := rfl
+example : Script.strictFormula [.assert 1, .check, .check] = .error .valueError := rfl
 
 /-- the placement of Z3Solver / MathSAT5Solver / BoolectorSolver -/
 def allDecorated : Config := ⟨true, true, true, true, true, true, true, true, true⟩
@@ -94,16 +94,16 @@ example : LegalOps [.assert 2, .oneshot .isValid 4, .push 2, .assert 6, .oneshot
   decide
 -- the pending pop really is pending after a one-shot query, and is undone by the next call
 example : (SolverTrack.run allDecorated [.assert 2, .oneshot .isSat 4]).map (fun st => (st.tracked, st.pending)) =
-    .ok ([2, 4], true) := by decide
+    .ok ([2, 4], true) := rfl
 example : (SolverTrack.run allDecorated [.assert 2, .oneshot .isSat 4, .solve]).map (fun st => (st.tracked, st.checks)) =
-    .ok ([2], [[2], [2, 4]]) := by decide
+    .ok ([2], [[2], [2, 4]]) := rfl
 -- the placement condition is needed: with no decorator the one-shot formula stays asserted (F27) …
 example : Covers noneDecorated = false := by decide
 example : (SolverTrack.run noneDecorated [.assert 2, .oneshot .isSat 4, .solve]).map (fun st => st.checks) =
-    .ok [[2, 4], [2, 4]] := by decide
+    .ok [[2, 4], [2, 4]] := rfl
 -- … and leaving out a single one (here `reset_assertions`) makes a later call fail in the native solver
 example : SolverTrack.run ⟨true, true, true, false, true, true, true, true, true⟩
-    [.oneshot .isSat 4, .reset, .assert 2] = .error .nativeError := by decide
+    [.oneshot .isSat 4, .reset, .assert 2] = .error .nativeError := rfl
 -- the table contains the classes the theorems talk about
 example : (classes.filter fun c => isConcrete classes c && usesBaseIsSat classes c).length ≥ 10 :=
   table_has_classes
